@@ -12,6 +12,7 @@ import (
 	"encoding/base64"
 	"fmt"
 	"math/rand"
+	"sort"
 	"strings"
 )
 
@@ -37,6 +38,24 @@ func vViewOf(st map[string]interface{}) *vView {
 }
 
 func pick(r *rand.Rand, xs []string) string { return xs[r.Intn(len(xs))] }
+
+// sortedKeys: Go randomises map iteration; the generator must be a function of the seed only.
+func sortedKeys(m map[string]interface{}) []string {
+	ks := make([]string, 0, len(m))
+	for k := range m {
+		ks = append(ks, k)
+	}
+	sort.Strings(ks)
+	return ks
+}
+
+func (v *vView) chansAsIface() map[string]interface{} {
+	m := map[string]interface{}{}
+	for k := range v.chans {
+		m[k] = true
+	}
+	return m
+}
 
 var (
 	vNicks    = []string{"alice", "bob", "carol", "dave", "b[ob]", "eve"}
@@ -276,8 +295,8 @@ func (g *vGen) next(step int, st map[string]interface{}) *vEntry {
 		return pick(r, vNicks)
 	}
 	var chans []string
-	for _, c := range v.chans {
-		chans = append(chans, c["name"].(string))
+	for _, k := range sortedKeys(v.chansAsIface()) {
+		chans = append(chans, v.chans[k]["name"].(string))
 	}
 	anyChan := func() string {
 		if len(chans) > 0 && r.Intn(5) != 0 {
@@ -297,9 +316,7 @@ func (g *vGen) next(step int, st map[string]interface{}) *vEntry {
 		if len(mych) > 0 && r.Intn(5) != 0 {
 			c := mych[r.Intn(len(mych))]
 			if cc, ok := v.chans[c]; ok {
-				for m := range cc["mem"].(map[string]interface{}) {
-					members = append(members, m)
-				}
+				members = append(members, sortedKeys(cc["mem"].(map[string]interface{}))...)
 			}
 			return c
 		}
